@@ -50,11 +50,7 @@ impl LuaEngine {
                             error_content = error_content.trim_start_matches(|c: char| !c.is_alphabetic());
                             let end_pos = error_content.find('\n').unwrap_or(error_content.len());
                             let clean_error = error_content[..end_pos].trim().to_string();
-                            let final_error = if clean_error.starts_with("ERR ") { 
-                                clean_error 
-                            } else { 
-                                format!("ERR {}", clean_error) 
-                            };
+                            let final_error = Self::with_error_class(clean_error);
                             Err(FerrousError::LuaError(final_error))
                         } else {
                             Err(FerrousError::LuaError(format!("ERR Error running script: {}", msg)))
@@ -309,13 +305,20 @@ impl LuaEngine {
         }
     }
     
-    /// Handle command errors with proper Redis semantics
-    fn handle_command_error_with_context(_lua_ctx: &Lua, error_msg: String, is_pcall: bool) -> LuaResult<LuaValue> {
-        let formatted_error = if error_msg.starts_with("ERR ") {
+    /// A message that already begins with an error class (ERR, WRONGTYPE, NOSCRIPT, ...) is kept as it is;
+    /// anything else gets the generic class ERR
+    pub(crate) fn with_error_class(error_msg: String) -> String {
+        let first = error_msg.split(' ').next().unwrap_or("");
+        if first.len() >= 3 && first.bytes().all(|b| b.is_ascii_uppercase()) {
             error_msg
         } else {
             format!("ERR {}", error_msg)
-        };
+        }
+    }
+    
+    /// Handle command errors with proper Redis semantics
+    fn handle_command_error_with_context(_lua_ctx: &Lua, error_msg: String, is_pcall: bool) -> LuaResult<LuaValue> {
+        let formatted_error = Self::with_error_class(error_msg);
         
         if is_pcall {
             // redis.pcall: return the error as the table {err = msg}, script continues
